@@ -647,7 +647,9 @@ func (ls *LState) raiseError(level int, format string, args ...interface{}) {
 			// the host function raising the error (error, assert, ...) is not a level itself
 			lv = level
 		}
-		message = fmt.Sprintf("%v %v", ls.where(lv, true), message)
+		if pos := ls.where(lv, true); pos != "" { // no Lua function at that level: the message stays as it is
+			message = fmt.Sprintf("%v %v", pos, message)
+		}
 	}
 	if ls.reg.IsFull() {
 		// if the registry is full then it won't be possible to push a value, in this case, force a larger size
